@@ -1222,3 +1222,24 @@ impl BreakpointRegistry {
         snap
     }
 }
+
+/// Verification hook (add-only): read-only view of the watchpoint companion breakpoints,
+/// which `snapshot()` hides: (address, linked watchpoint numbers, enabled), sorted by address.
+#[cfg(feature = "verif")]
+impl Debugger {
+    pub fn verif_watchpoint_companions(&self) -> Vec<(usize, Vec<u32>, bool)> {
+        let mut v: Vec<(usize, Vec<u32>, bool)> = self
+            .breakpoints
+            .breakpoints
+            .values()
+            .filter_map(|bp| match bp.r#type() {
+                BrkptType::WatchpointCompanion(wps) => {
+                    Some((bp.addr.as_usize(), wps.clone(), bp.is_enabled()))
+                }
+                _ => None,
+            })
+            .collect();
+        v.sort();
+        v
+    }
+}
